@@ -34,6 +34,16 @@ func (x *Exec) extendEnv(env *SpecEnv, st *State, fr *Frame) {
 	if st.ghost != nil && st.ghost.db != nil {
 		st.ghost.db.extendEnv(x, env, st, fr)
 	}
+	prev := env.extra
+	env.extra = func(name string, args []TV) (TV, bool) {
+		if tv, ok := x.frontBuiltin(env, st, name, args); ok {
+			return tv, true
+		}
+		if prev != nil {
+			return prev(name, args)
+		}
+		return TV{}, false
+	}
 }
 
 var _ = ssa.NewProgram
